@@ -12,7 +12,7 @@ on a Resource), explicit mutex.lock()/unlock(), and condition_variable::wait (lo
 predicate).  Thread entry points (callables handed to std::thread) are collected as further roots.
 """
 import collections
-from facts import Node, Inconclusive
+from facts import Node, Inconclusive, strip_targs
 
 MUTEX_GUARDS = ('std::unique_lock', 'std::scoped_lock', 'std::lock_guard')
 RW_GUARDS = {'tulz::rwp::ReadLock': 'R', 'tulz::rwp::WriteLock': 'W'}
@@ -269,6 +269,7 @@ class Engine:
 
     def _transfer(self, fr, B, L, guardvars, root, record):
         L = set(L)
+        self._guardvars_cur = guardvars
         for e in B.elems:
             if e.kind == 'autodtor':
                 t = guardvars.get(e.info['decl'])
@@ -362,7 +363,7 @@ class Engine:
         return env
 
     def _call(self, n, fr, L, root, record):
-        q = n.calleeq or ''
+        q = strip_targs(n.calleeq or '')
         base = q.split('::')[-1]
         obj = n.n('object')
         args = n.ns('args')
@@ -380,7 +381,11 @@ class Engine:
             if tok not in L and record: self.unbalanced.append((fr.fn, n.shortloc(), f'unlock of {tok[2]} that is not held'))
             L.discard(tok); return
         if q in ('std::unique_lock::unlock', 'std::unique_lock::lock') and obj is not None:
-            # explicit operations on a guard variable
+            # explicit operations on a guard variable: release / re-acquire the mutex it guards
+            gv = self._guardvars_cur.get(obj.decl) if obj.k == 'ref' else None
+            if gv is not None:
+                if q.endswith('unlock'): L.discard(gv)
+                else: L.add(gv)
             return
         if not record: return
         chain = list(fr.chain) + [fr.fn.name]
